@@ -86,6 +86,19 @@ def check_helicity_step(repo, chk, oblige):
     oblige("E6-helicity", "alpha = atan2(sin phi, cos phi): denominator", a_cos, cphi, W, "alpha-cos")
     oblige("E6-helicity", "beta = atan2(sin theta, cos theta): numerator", b_sin, s, W, "beta-sin")
     oblige("E6-helicity", "beta = atan2(sin theta, cos theta): denominator", b_cos, c, W, "beta-cos")
+    # x1 need not be perpendicular to z1 (cal_angle_from_particle passes base_z = top momentum with base_x = e_x):
+    # only the half plane spanned by (z1, x1) matters
+    k = sp.Symbol("k", real=True)
+    captured.clear()
+    res_k = tr.call_fn(fn, [ez, ex + k * ez, mom])
+    (ak_sin, ak_cos), (bk_sin, bk_cos) = captured
+    oblige("E6-helicity", "x1 with a z1 component: alpha unchanged (numerator)", ak_sin, sphi, W, "alpha-sin-oblique")
+    oblige("E6-helicity", "x1 with a z1 component: alpha unchanged (denominator)", ak_cos, cphi, W, "alpha-cos-oblique")
+    oblige("E6-helicity", "x1 with a z1 component: beta unchanged (numerator)", bk_sin, s, W, "beta-sin-oblique")
+    oblige("E6-helicity", "x1 with a z1 component: beta unchanged (denominator)", bk_cos, c, W, "beta-cos-oblique")
+    xk = np.asarray(res_k[1], dtype=object).reshape(-1)
+    for i_, nm in enumerate("xyz"):
+        oblige("E6-helicity", "x1 with a z1 component: derived x axis %s unchanged" % nm, xk[i_], x_d1[i_], W, "x2-oblique-%s" % nm)
     # second daughter: momentum -p
     captured.clear()
     res2 = tr.call_fn(fn, [ez, ex, -mom])
